@@ -10,3 +10,6 @@ func (f *Fetcher) VerifPoolLen() int { return len(f.data.Cookie) }
 
 // VerifKeyCount is the number of keys the provider currently holds.
 func (p *Provider) VerifKeyCount() int { return len(p.keys) }
+
+// VerifForget drops everything the fetcher holds, as a restart of the client process does.
+func (f *Fetcher) VerifForget() { f.data = Data{} }
